@@ -692,6 +692,11 @@ def _(H):
 @op("reaction*=", "edit", "rev", weight=1.5)
 def _(H):
     r = H.rxn()
+    # a sign flip swaps and negates the bounds: one-sided ranges on the far side of zero ((-8, -2), (2, 8), fixed fluxes)
+    # are where doing that in two steps goes wrong, so they are preferred when the model has any
+    far = [x for x in H.model.reactions if x.upper_bound < 0 or x.lower_bound > 0]
+    if far and H.rng.random() < 0.4:
+        r = H.rng.choice(far)
     c = H.rng.choice([2, -1, 0.5, -2, 3, 1.5, -0.5, 4])
     r *= c
     return {"id": r.id, "factor": c}
